@@ -97,10 +97,14 @@ def run_case(case):
         kw["bc_type"] = bc
     labels = ["method=" + method, "bc=" + (bc if method == "cspline" else "-"), "n=" + ("2" if n == 2 else "odd" if n % 2 else "even"),
               "rank=%d" % len(shape), "dim=%s" % ("last" if pos == len(shape) - 1 else "inner"), "dimsign=" + ("pos" if case["posdim"] else "neg"),
-              "dtype=" + case["dtype"], "rel=" + case["rel"]]
+              "dtype=" + case["dtype"], "rel=" + case["rel"], "offset=" + ("far" if abs(case["x0"]) >= 1e4 else "near"),
+              "units=" + ("tiny" if case["xscale"] < 1e-6 else "normal")]
     sq = xt_call(SQuad, x_t, _where="construct", **kw)
     scale = float(np.abs(ys).max() + 1.0) * float(xs_eff[-1] - xs_eff[0])
-    tol = (1e-10 * ratio ** 2 if dtype == torch.float64 else 2e-3 * ratio) * scale
+    # positions are exact inputs (the reference uses the same rounded values); the spacing differences x[i+1]-x[i] carry a relative
+    # rounding of at most eps*|x|max/hmin, amplified like every other perturbation of the spline system by ratio^2
+    pert = 2.3e-16 * float(np.abs(xs_eff).max()) / float(np.diff(xs_eff).min())
+    tol = ((1e-10 + 100 * pert) * ratio ** 2 if dtype == torch.float64 else 2e-3 * ratio) * scale
     ref = np.moveaxis(ref_cumsum(method, bc, xs_eff, ys), -1, pos)      # back to y's layout
     rel = case["rel"]
     nontrivial = n >= 3 and not case["yconst"]
@@ -170,9 +174,16 @@ def case_st(draw, tier="quick"):
     n = draw(st.one_of(st.integers(nmin, 7), st.integers(nmin, 14 if tier == "quick" else 40)))
     incs = [draw(st.sampled_from([1.0, 1.0, 1.0, 0.5, 2.0, 0.1, 3.0, 10.0])) for _ in range(n - 1)]
     other = draw(st.lists(st.integers(1, 3), max_size=3))
-    return {"method": method, "bc": bc, "incs": incs, "xscale": draw(st.sampled_from([1.0, 0.01, 30.0])),
-            "x0": draw(st.sampled_from([0.0, -5.0, 2.5])), "other": other, "pos": draw(st.integers(0, 3)),
-            "posdim": draw(st.booleans()), "omit_dim": draw(st.booleans()), "dtype": draw(st.sampled_from(["f64", "f64", "f64", "f32"])),
+    dtype = draw(st.sampled_from(["f64", "f64", "f64", "f32"]))
+    # grids far from the origin relative to their spacing, and grids in tiny units (float64 only: in float32 such grids are not
+    # representable to useful accuracy)
+    x0 = draw(st.sampled_from([0.0, -5.0, 2.5] + ([1e4, -3e5] if dtype == "f64" else [])))
+    xscale = draw(st.sampled_from([1.0, 0.01, 30.0] + ([1e-8] if dtype == "f64" and x0 in (0.0, -5.0, 2.5) else [])))
+    if xscale == 1e-8:
+        x0 = x0 * 1e-8
+    return {"method": method, "bc": bc, "incs": incs, "xscale": xscale,
+            "x0": x0, "other": other, "pos": draw(st.integers(0, 3)),
+            "posdim": draw(st.booleans()), "omit_dim": draw(st.booleans()), "dtype": dtype,
             "rel": draw(st.sampled_from(["value", "value", "linear", "reject"])), "bad": draw(st.sampled_from([1, -1, 2, -2])),
             "yconst": draw(st.sampled_from([False, False, False, True])), "seed": draw(st.integers(0, 2 ** 31 - 1))}
 
